@@ -1,6 +1,7 @@
 """C08 — loop and source handles are safely re-entrant from inside callbacks."""
 import templates as T
 import t1
+import flow
 from core import path_descr, AnchorMissing
 
 LEVEL = "other"
@@ -80,9 +81,17 @@ def run(ck):
         n += 1
         bad = []
         held = []
+        own = set()
+        cs_ = s.body.call_at(s.bb)
+        if s.cls == "CB" and cs_ is not None and cs_.args and cs_.trait in flow.FN_TRAITS:
+            # the guard the callback itself is borrowed out of (`slot.as_mut()` -> `callback(data)`): the callback's own
+            # cell, necessarily borrowed while it runs — not loop state
+            for l, kind, p_ in s.live:
+                if T.derives_from_local(s.body, cs_.args[0], l) and not any(x in f.types[p_]["s"] for x in LOOP_CELLS + ("DispatcherInner", "LoopInner")):
+                    own.add(s.body.local_name(l) or "_%d" % l)
         for kind, short, tdesc, name, src in s.payloads():
             held.append("%s<%s> %s" % (kind, short, name))
-            if not is_allowed(short):
+            if not is_allowed(short) and not (src is None and name in own):
                 bad.append("%s<%s> held in %s%s" % (kind, short, name, " by " + src if src else ""))
         descr = "%s:%s" % (s.cls, s.descr)
         if bad:
